@@ -87,6 +87,11 @@ check("C04", "exploration",
       "Trusts the own cssval oracle (tokenizer, grammars, colour table, initial values from the cited specifications); properties without a grammar are compared by token identity.",
       "bounded exhaustive stylesheet enumeration vs independent CSS value interpreter", "DESIGN.md#c04")
 
+check("C02", "exploration",
+      "Scope shapes are enumerated exhaustively: every chain of <=2 (thorough <=3) nested scopes over 12 scope kinds x 9 declaration kinds x 4 naming schemes (distinct, shadowing, names equal to the renamer's first picks, with globals of those names in use); every declaration carries its own constant, every use site logs the value it resolves to before and after the inner scope and closures are called at the end, so a capture or collision changes the log or throws. Free-variable families put globals named like the first 32 generated names next to 1..12 locals; one scope with N bindings for N up to 3700 (all N in thorough) drives name generation through every one- and two-letter name incl. keywords, with two-letter globals in use. Programs run in V8 for KeepVarNames off/on. Static clauses with acorn: output parses in sloppy and strict mode, labels/top-level declarations/import and export names/property names unchanged, no new identifier with KeepVarNames, `with` functions untouched (observed by execution).",
+      "V8 and acorn from node 20 are the trusted engine and parser; scope trees deeper than the bound and direct eval are outside.",
+      "bounded exhaustive scope-shape enumeration with instrumented bindings executed on an independent engine + independent parser for static clauses", "DESIGN.md#c02", engine="jsrun")
+
 ALL = ["C%02d" % i for i in range(1, 21)]
 NOT_YET = {p: "check not built yet in this revision (planned, see DESIGN.md section 4); not claimed until its command exists" for p in ALL if p not in CHECKS}
 
